@@ -56,6 +56,8 @@ type op struct {
 	idx  int
 	site int
 	n    int64
+	// fresh: the increment goes through a Counter object made for it
+	fresh bool
 }
 
 func baseTime(c *hlib.RunCtx) time.Time {
@@ -184,7 +186,7 @@ func scenarioC03(c *hlib.RunCtx) *hlib.Violation {
 			if len(p.stacks) > 0 && (len(p.counters) == 0 || t.Bool(1, 4)) {
 				o = op{kind: 1, idx: t.Draw(len(p.stacks)), site: t.Draw(2), n: 1}
 			} else {
-				o = op{kind: 0, idx: t.Draw(len(p.counters)), n: int64(1 + t.Draw(5))}
+				o = op{kind: 0, idx: t.Draw(len(p.counters)), n: int64(1 + t.Draw(5)), fresh: t.Bool(1, 5)}
 				if w.satur && t.Bool(1, 3) {
 					o.n = int64(1)<<33 - int64(t.Draw(4))
 					switch t.Draw(4) {
@@ -242,7 +244,16 @@ func scenarioC03(c *hlib.RunCtx) *hlib.Violation {
 					simrt.Yield("op")
 				}
 				if o.kind == 0 {
-					w.add(p, p.counters[o.idx], o.n)
+					cn := p.counters[o.idx]
+					if o.fresh {
+						// a new Counter object for every increment, as counter.Inc(name)
+						// and counter.Add(name, n) make one: it is registered with the
+						// file while rotations and growth walk the list of counters
+						cn = p.f.VerifNewCounter(cn.Name())
+						p.counters = append(p.counters, cn)
+						s.Probe("fresh-counter-object")
+					}
+					w.add(p, cn, o.n)
 				} else {
 					key := stackKeys[o.idx]
 					name := stackNames[key][o.site]
@@ -335,7 +346,8 @@ func (w *world) checkConservation(final bool) {
 			w.fail("upper-bound", "counter %q: persisted %d + pending %d exceeds the %d (+%d*2^64) begun", short(n), pers[n], pend[n], w.begun[n], w.begunHi[n])
 			return
 		}
-		if w.satur {
+		if w.satur && (w.begunHi[n] > 0 || w.begun[n] >= uint64(1)<<33-1) {
+			// (per name: a counter that only ever got small amounts is held to the exact clauses below)
 			// Near the saturation limits only the upper bound and no-wrap clauses
 			// apply (persisted values: value-monotone per snapshot). No wrap for
 			// the pending amount: once everything has returned, what is held
